@@ -3,7 +3,7 @@ import copy
 
 from hypothesis import strategies as st
 
-from harness import build, gen, simnet, wire, httpref
+from harness import build, gen, simnet, wire, httpref, deflateref
 from harness.runner import Prop, held, failed
 from props.c07 import monitor
 
@@ -31,7 +31,7 @@ def base_script(case, stream_override=None, end_override=None, silent=False, pro
         script.append(["stream", [["bytes", stream_override]], "whole", 0.0])
         script.append(end_step(end_override, 0.0))
         return script, pre, post
-    script.append(["stream", [["reply", None], ["bytes", bytes(pre.data)]], case["seg"], 0.0])
+    script.append(["stream", [["reply", reply_of(case)], ["bytes", bytes(pre.data)]], case["seg"], 0.0])
     if case["idle"]:
         script.append(["pause", 2.5])
     if case["server_close"]:
@@ -42,6 +42,14 @@ def base_script(case, stream_override=None, end_override=None, silent=False, pro
     if not silent:
         script.append(end_step(case["end"], 0.5))
     return script, pre, post
+
+
+def reply_of(case):
+    """permessage-deflate negotiated (the application's messages then go through the compressor before they are
+    written; the server's stay uncompressed, which the extension allows)"""
+    if case.get("deflate"):
+        return httpref.canonical_spec(extensions=[deflateref.header_of(case["deflate"])])
+    return None
 
 
 # how a transport ends: the peer's FIN, or a failure that every later read reports again
@@ -71,6 +79,8 @@ def base_scenario(case, faults=None, addrs=None, resolve=None, stream_override=N
     kw = {"url": "wss://example.test/"} if case.get("tls") else {}
     if case.get("proxy"):
         kw["ws_opts"] = {"proxies": {"http": "http://proxy.test:3128", "https": "http://proxy.test:3128"}}
+    if case.get("deflate"):
+        kw.setdefault("ws_opts", {})["compress"] = True
     return build.scenario(script, reactions=reactions, connect_opts=copts, attempt_extra=att,
                           horizon=300.0 if silent else 2000.0, **kw)
 
@@ -114,11 +124,32 @@ class C09(Prop):
             "tls": gen.weighted([(2, st.just(False)), (1, st.just(True))]),
             # through an HTTP proxy (CONNECT): every fault can then also hit the exchange with the proxy
             "proxy": gen.weighted([(3, st.just(False)), (1, st.just(True))]),
+            # permessage-deflate negotiated: what the application sends passes through the compressor first
+            "deflate": gen.deflate_opt(),
             # an earlier connection in this process (same WebSocket object or another) and how it ended
             "prelude": gen.prelude(6),
             # a second live connection in the same process (interleaved with this one, or blocked in a send)
             "companion": gen.companion(15),
         })
+
+    def enumerations(self, tier):
+        # a fixed battery (what a detection depends on is not left to the draws): application sends of both kinds and a
+        # ping, automatic pings and pongs, either closing order; plain / deflate x ws / wss x direct / proxy
+        ping = {"kind": "ping", "payload": ["hex", "7071"], "forms": [0]}
+        text = {"kind": "text", "payload": ["str", "srv \u20ac"], "forms": [0]}
+
+        def battery():
+            for deflate in (False, True, {"sb": 9, "cb": 9, "snct": True, "cnct": True}):
+                for tls in (False, True):
+                    for proxy in (False, True):
+                        for client_close, server_close in ((None, False), (1, False), (None, True)):
+                            yield {"msgs": [text, ping], "msgs2": [text], "idle": True,
+                                   "sends": [{"when": ["event", "ready", 0], "do": [["send_text", "app"], ["ping", "70"]]},
+                                             {"when": ["msg", 1], "do": [["send_binary", "aa"]]}],
+                                   "client_close": client_close, "server_close": server_close, "end": "eof", "seg": "whole",
+                                   "naddrs": 2, "tls": tls, "proxy": proxy, "deflate": deflate}
+        from harness.runner import Enumeration
+        return [Enumeration("fixed_battery_x_deflate_tls_proxy", battery, exhaustive=True)]
 
     # ------------------------------------------------------------------
     def judge(self, tr, what, fault_before_connected):
@@ -312,7 +343,7 @@ class C09(Prop):
                     if bad:
                         return failed(bad[0], bad[1], labels, True, sub)
         # 7. truncation at every byte offset, then EOF / reset
-        reply = httpref.build_reply(None, sim0.socks[-1].request)
+        reply = httpref.build_reply(reply_of(case), sim0.socks[-1].request)
         pre = build.build_session(case["msgs"])
         stream = reply + bytes(pre.data)
         if len(stream) <= 400:
